@@ -1473,6 +1473,8 @@ def str_method(recv, name, args, kw):
 
 def contains(container, item):
     item = force(item)
+    if hasattr(container, '__sx_contains__'):
+        return container.__sx_contains__(item)
     if isinstance(container, str):
         if isinstance(item, SStr):
             if len(item) == 0:
@@ -1523,6 +1525,8 @@ def getitem(a, i):
     a = force(a)
     if isinstance(i, SBool):
         i = SInt(zint(i))
+    if hasattr(a, '__sx_contains__'):
+        return a[i]
     if isinstance(a, dict):
         if isinstance(i, SStr):
             keys = [k for k in a if isinstance(k, str) and len(k) == len(i)]
@@ -2544,6 +2548,8 @@ class RT:
                 return str_method(recv, name, args, kw)
             return getattr(recv, name)(*args, **kw)
         if isinstance(recv, dict):
+            if hasattr(recv, '__sx_contains__'):
+                return getattr(recv, name)(*args, **kw)
             if name == 'get' and args and deep_sym(args[0]):
                 return dict_get(recv, *args)
             if name in ('update', 'items', 'keys', 'values', 'copy', 'setdefault', 'pop') and not (args and isinstance(force(args[0]), SYM_TYPES)):
